@@ -320,14 +320,12 @@ Theorem C20_schema_loader_agree :
 Proof. exact schema_loader_agree. Qed.
 Print Assumptions C20_schema_loader_agree.
 
-(** the witnesses of C20-F1 are stated about the tables as extracted when the
-    finding was recorded ([pinned_*], C20/SchemaPinned.v), so that a repaired tree
-    does not break the build; whether the current tree still shows them is
-    reported by the replay stream on every run *)
 (** acceptance equivalence: agreement of the tables row by row (no wildcard, no
     excused row) implies that they accept the same mechanism definitions — for
-    all tables; and the current tables do agree that way once the value syntax of
-    durations (C20-F6) is set aside *)
+    all tables; and the current tables do agree that way once the value classes
+    are erased ([erase_classes] erases EVERY [CClass]: the duration syntax of
+    C20-F6 and also the non-emptiness cells of the F1d/F1e kind, so
+    C20_schema_loader_accept_equal says nothing about emptiness constraints) *)
 Theorem C20_tables_agree_accept_equal :
   forall s l, strict_ok s l = true -> forall p, accepts s p = accepts l p.
 Proof. exact strict_ok_accepts. Qed.
@@ -338,19 +336,58 @@ Theorem C20_schema_loader_accept_equal :
 Proof. exact schema_loader_accept_equal. Qed.
 Print Assumptions C20_schema_loader_accept_equal.
 
-Theorem C20_F1_refuted :
+(** C20-F1 groups a, b, c as they were before 80621e4 / 6c5864d / c343928: the
+    witnesses of the REPAIRED groups are stated about the tables as extracted
+    when the finding was recorded ([pinned_*], C20/SchemaPinned.v), so that the
+    repaired tree does not break the build.  [guard_F1 false false r = true]
+    holds because the repair flags of groups a and b are passed as [false]
+    (the variant before the repairs); with the flags of the tree as it is
+    ([fixed_F1a]/[fixed_F1b] = true) these rows are not excused any more *)
+Theorem C20_F1_pinned_refuted :
   exists r, In r (all_rows pinned_schema_tbl pinned_loader_tbl) /\ guard_F1 false false r = true /\
             row_agrees pinned_schema_tbl pinned_loader_tbl r = false.
 Proof. exact F1_refuted. Qed.
-Print Assumptions C20_F1_refuted.
+Print Assumptions C20_F1_pinned_refuted.
 
-Theorem C20_F1_rows_all_disagree :
+Theorem C20_F1_pinned_rows_all_disagree :
   (forall r, In r (known_F1a ++ known_F1b) ->
      In r (all_rows pinned_schema_tbl pinned_loader_tbl) /\ row_agrees pinned_schema_tbl pinned_loader_tbl r = false) /\
   (forall r, In r known_F1c ->
      In r (all_rows pinned_c_schema_tbl pinned_c_loader_tbl) /\ row_agrees pinned_c_schema_tbl pinned_c_loader_tbl r = false).
 Proof. exact F1_rows_all_disagree. Qed.
-Print Assumptions C20_F1_rows_all_disagree.
+Print Assumptions C20_F1_pinned_rows_all_disagree.
+
+(** the OPEN group f of C20-F1, on the tables of the tree as it is (regenerated
+    on every run): every recorded row is a row of the tables and the two sides
+    disagree on it (also: no stale guard for group f).  Of the 10 rows only the
+    four serve.* rows are an observable file/environment asymmetry, see
+    findings/C20.json.  When group f is repaired this theorem breaks and has to
+    move to a pinned snapshot like groups a-c. *)
+Lemma F1f_recorded : recorded_all_disagree known_F1f schema_tbl loader_tbl = true.
+Proof. vm_compute. reflexivity. Qed.
+
+Theorem C20_F1f_refuted :
+  forall r, In r known_F1f ->
+    In r (all_rows schema_tbl loader_tbl) /\ row_agrees schema_tbl loader_tbl r = false.
+Proof. exact (recorded_sound _ _ _ F1f_recorded). Qed.
+Print Assumptions C20_F1f_refuted.
+
+(** the table-level part of the open C20-F6 (duration syntax: the schema's
+    pattern against time.ParseDuration) on the current tables: a row excused by
+    [guard_F6_row] on which the two sides do disagree.  The container-level
+    `required` part of C20-F6 and C20-F5 have no model; they are observed by
+    stream meta only. *)
+Theorem C20_F6_refuted :
+  exists r, In r (all_rows schema_tbl loader_tbl) /\ guard_F6_row schema_tbl loader_tbl r = true /\
+            row_agrees schema_tbl loader_tbl r = false.
+Proof.
+  destruct (find (fun r => guard_F6_row schema_tbl loader_tbl r && negb (row_agrees schema_tbl loader_tbl r))
+                 (all_rows schema_tbl loader_tbl)) as [r|] eqn:E.
+  - apply find_some in E as [A B]. apply andb_true_iff in B as [B1 B2]. apply negb_true_iff in B2.
+    exists r. auto.
+  - vm_compute in E. discriminate E.
+Qed.
+Print Assumptions C20_F6_refuted.
 
 (** C20-F3 as it was before 0f39207 ([fix3 = false]): the pinned behaviour *)
 Theorem C20_F3_pinned_refuted :
